@@ -163,6 +163,11 @@ def replay(pid, path, as_json=False):
 def run(pid, tier, seed, workers=None, chunk=None):
     t0 = time.time()
     mod = load_module(pid)
+    import FlowCal
+    want = os.path.realpath(os.environ.get('FCVERIF_REPO', '/repo'))
+    if not os.path.realpath(FlowCal.__file__).startswith(want + os.sep):
+        sys.stderr.write('HARNESS-ERROR: FlowCal imported from %s, expected under %s\n' % (FlowCal.__file__, want))
+        return 3
     workers = workers or int(os.environ.get('FCVERIF_WORKERS', '16'))
     chunk = chunk or getattr(mod, 'CHUNK', 8)
     scratch()
